@@ -1,11 +1,17 @@
 package g7sig
 
 import (
+	"fmt"
+
 	"github.com/aperturerobotics/bifrost/hash"
 	"github.com/aperturerobotics/bifrost/peer"
 	signaling "github.com/aperturerobotics/bifrost/signaling/rpc"
 	"verifharness/keys"
 )
+
+// SignalingContext is the signing context of signaling session messages
+// (copied from the wire format documentation in signaling/rpc/signaling.go).
+const SignalingContext = "bifrost/signaling/rpc session msg 2024-06-05T02:45:07.208906Z"
 
 // Honest builds a session message signed by id under the signaling context.
 func Honest(id *keys.Identity, payload []byte, seqno uint64) *signaling.SessionMsg {
@@ -44,4 +50,84 @@ func ReqClear(sessSeqno, seq uint64) *signaling.SessionRequest {
 // ReqInit builds an Init request.
 func ReqInit(sessSeqno uint64, dst string) *signaling.SessionRequest {
 	return &signaling.SessionRequest{SessionSeqno: sessSeqno, Body: &signaling.SessionRequest_Init{Init: &signaling.SessionInit{PeerId: dst}}}
+}
+
+// DeriveKinds lists the HISTORY-dependent forgeries a malicious client can
+// build from messages the server has already verified and accepted on its
+// stream: none of them is validly signed by the stream identity (each differs
+// from every honest submission in payload, hash type, signature bytes or
+// claimed sender). A copy that differs only in the unauthenticated pub_key
+// field or the outer seqno would still be authentic and is not generated.
+var DeriveKinds = []string{
+	"sig-new-data", "sig-flip-data", "sig-append-data", "sig-trunc-data",
+	"sig-hash-sha256", "sig-hash-sha1", "sig-hash-sha256-new-data", "sig-new-data-hash0",
+	"sig-pubkey-other-new-data", "sig-pubkey-self-new-data",
+	"data-with-older-sig", "older-data-with-sig", "data-resigned-by-other", "data-resigned-other-ctx",
+	"sig-data-reattributed", "sig-extended",
+}
+
+// Derive builds a history-dependent forgery of kind from the accepted honest
+// message h of identity self and a second accepted honest message h2 of self
+// (h2 == h if there is only one). other is another identity; fresh is a payload
+// never submitted honestly; n drives the position of bit flips / cuts.
+func Derive(kind string, h, h2 *signaling.SessionMsg, self, other *keys.Identity, fresh []byte, seqno uint64, n int) *signaling.SessionMsg {
+	m := h.CloneVT()
+	m.Seqno = seqno
+	sm := m.SignedMsg
+	sign := func(ctx string, id *keys.Identity, data []byte, inclPub bool) *peer.Signature {
+		s, err := peer.NewSignature(ctx, id.Priv, hash.HashType_HashType_BLAKE3, data, inclPub)
+		if err != nil {
+			panic(err)
+		}
+		return s
+	}
+	switch kind {
+	case "sig-new-data":
+		sm.Data = fresh
+	case "sig-flip-data":
+		sm.Data[n%len(sm.Data)] ^= 1 << (uint(n>>8) % 8)
+	case "sig-append-data":
+		sm.Data = append(sm.Data, byte('a'+n%26))
+	case "sig-trunc-data":
+		sm.Data = sm.Data[:len(sm.Data)-1-n%(len(sm.Data)/2)]
+	case "sig-hash-sha256":
+		sm.Signature.HashType = hash.HashType_HashType_SHA256
+	case "sig-hash-sha1":
+		sm.Signature.HashType = hash.HashType_HashType_SHA1
+	case "sig-hash-sha256-new-data":
+		sm.Signature.HashType = hash.HashType_HashType_SHA256
+		sm.Data = fresh
+	case "sig-new-data-hash0":
+		sm.Signature.HashType = hash.HashType_HashType_UNKNOWN
+		sm.Data = fresh
+	case "sig-pubkey-other-new-data":
+		sm.Signature.PubKey = sign(SignalingContext, other, fresh, true).PubKey
+		sm.Data = fresh
+	case "sig-pubkey-self-new-data":
+		sm.Signature.PubKey = sign(SignalingContext, self, fresh, true).PubKey
+		sm.Data = fresh
+	case "data-with-older-sig":
+		if h2 != h {
+			sm.Signature = h2.SignedMsg.Signature.CloneVT()
+		} else {
+			sm.Signature = sign(SignalingContext, self, fresh, false)
+		}
+	case "older-data-with-sig":
+		if h2 != h {
+			sm.Data = append([]byte(nil), h2.SignedMsg.Data...)
+		} else {
+			sm.Data = fresh
+		}
+	case "data-resigned-by-other":
+		sm.Signature = sign(SignalingContext, other, sm.Data, false)
+	case "data-resigned-other-ctx":
+		sm.Signature = sign("verif/not the signaling context 2026-01-01", self, sm.Data, false)
+	case "sig-data-reattributed":
+		sm.FromPeerId = other.String()
+	case "sig-extended":
+		sm.Signature.SigData = append(sm.Signature.SigData, byte(n))
+	default:
+		panic(fmt.Sprintf("unknown derive kind %q", kind))
+	}
+	return m
 }
